@@ -25,6 +25,15 @@
 (*   Refresh    POST /control/filtering/refresh (or the periodic one):     *)
 (*              every configured list is read again                        *)
 (*   Remove(l)  POST /control/filtering/remove_url                         *)
+(*   OwnerMutatesItsCopy   an ENVIRONMENT step: whoever started the server *)
+(*              overwrites the elements of the pattern slice it passed to  *)
+(*              New, and of the configuration copy it got back from        *)
+(*              WriteDiskConfig, with patterns that admit other files.     *)
+(*              "Configured" means configured when the server was started: *)
+(*              pats does not change (PatternsFixedAtStart), and since     *)
+(*              every bound is computed from pats, whatever the owner does *)
+(*              to ITS copies (variable owner) changes nothing the server  *)
+(*              may open.                                                  *)
 (*                                                                         *)
 (* Two configurations use this one text.  SafePath.mc.cfg (Mode = "mc")    *)
 (* explores ALL histories of these steps over a small set of locations     *)
@@ -35,7 +44,7 @@
 (* SetURLOpens, InjectOpens, RefreshOpens) and prints them as one vector   *)
 (* for the Go harness to replay through all three entry points.            *)
 (* SafePath.walk.cfg (Mode = "walk") is the "mc" machine again, viewed     *)
-(* through <<pats, known>> only, printing every edge of that graph         *)
+(* through <<pats, known, owner>> only, printing every edge of that graph  *)
 (* (source table, step, bound on what the step may open): the harness      *)
 (* covers these edges with walks on ONE live server each, because the      *)
 (* invariant is over all states of the machine, not over single calls --   *)
@@ -60,8 +69,8 @@ CONSTANT Mode    \* "mc": small location set, all histories;  "gen": large
                  \* location set, one entry step each, vectors emitted;
                  \* "walk": the "mc" machine, every edge printed
 
-VARIABLES pats, known, opened, last
-vars == <<pats, known, opened, last>>
+VARIABLES pats, known, opened, last, owner
+vars == <<pats, known, opened, last, owner>>
 
 \* ------------------------------------------------------------- vocabulary
 MCChars == [n \in {"R", "s", "S", "o", "t", "d", "a.txt", "c.txt"} |->
@@ -166,14 +175,14 @@ Room(l) == l \in known \/ Cardinality(known) < MaxKnown
 \* "walk" mode: the edge just taken, for the harness's edge-covering walks.
 Edge(act, l, bound) ==
     Mode = "walk" =>
-      PrintT(<<"@@V", ToJson([t |-> "e", cfg |-> pats, src |-> known, act |-> act, loc |-> l,
+      PrintT(<<"@@V", ToJson([t |-> "e", cfg |-> pats, src |-> known, own |-> owner, act |-> act, loc |-> l,
                               may |-> bound])>>)
 
 Add(l) == /\ Room(l)
           /\ known'  = known \cup {l}
           /\ opened' = AddOpens(l)
           /\ last'   = [act |-> "add", loc |-> l]
-          /\ UNCHANGED pats
+          /\ UNCHANGED <<pats, owner>>
           /\ Edge("add", l, opened')
 
 \* Editing needs a list to edit.
@@ -182,27 +191,41 @@ SetURL(l) == /\ Room(l)
              /\ known'  = known \cup {l}
              /\ opened' = SetURLOpens(l)
              /\ last'   = [act |-> "seturl", loc |-> l]
-             /\ UNCHANGED pats
+             /\ UNCHANGED <<pats, owner>>
              /\ Edge("seturl", l, opened')
 
 Inject(l) == /\ Room(l)
              /\ known'  = known \cup {l}
              /\ opened' = InjectOpens(l)
              /\ last'   = [act |-> "inject", loc |-> l]
-             /\ UNCHANGED pats
+             /\ UNCHANGED <<pats, owner>>
              /\ Edge("inject", l, opened')
 
 Refresh == /\ opened' = RefreshOpens(known)
            /\ last'   = [act |-> "refresh", loc |-> NoLoc]
-           /\ UNCHANGED <<pats, known>>
+           /\ UNCHANGED <<pats, known, owner>>
            /\ Edge("refresh", NoLoc, opened')
 
 Remove(l) == /\ l \in known
              /\ known'  = known \ {l}
              /\ opened' = {}
              /\ last'   = [act |-> "remove", loc |-> l]
-             /\ UNCHANGED pats
+             /\ UNCHANGED <<pats, owner>>
              /\ Edge("remove", l, opened')
+
+\* The owner's copies after it has scribbled over them: element i of its
+\* slices becomes ScribbleGlobs[i] (cyclically) -- patterns that match files
+\* no configuration of this model admits together.  The harness does exactly
+\* this to the slice it passed to New and to WriteDiskConfig's copy.
+ScribbleGlobs == <<A(<<L("R"), <<Star>>, <<Star>>>>), A(<<L("R"), <<Star>>>>)>>
+
+OwnerMutatesItsCopy ==
+    /\ owner = "configured"
+    /\ owner'  = "scribbled"
+    /\ opened' = {}
+    /\ last'   = [act |-> "scribble", loc |-> NoLoc]
+    /\ UNCHANGED <<pats, known>>
+    /\ Edge("scribble", NoLoc, opened')
 
 \* "gen" mode: one step per (configuration, location) that evaluates the
 \* bounds of all entry points with the operators the actions above use and
@@ -214,7 +237,7 @@ Remove(l) == /\ l \in known
 Sweep(l) == /\ known'  = {l}
             /\ opened' = RefreshOpens({l})
             /\ last'   = [act |-> "sweep", loc |-> l]
-            /\ UNCHANGED pats
+            /\ UNCHANGED <<pats, owner>>
             /\ PrintT(<<"@@V", ToJson([t |-> "v", cfg |-> pats, loc |-> l,
                                       add |-> AddOpens(l), seturl |-> SetURLOpens(l),
                                       inject |-> InjectOpens(l),
@@ -227,7 +250,7 @@ Sweep(l) == /\ known'  = {l}
 EmitTables ==
     Mode = "gen" =>
       PrintT(<<"@@V", ToJson([t |-> "tables", dirs |-> Dirs, files |-> Files, cwd |-> Cwd,
-                              globs |-> Globs,
+                              globs |-> Globs, scribble |-> ScribbleGlobs,
                               matching |-> {[cfg |-> c,
                                              nodes |-> {f \in Files \cup Dirs : MatchesAny(PatsOf(c), f)}] :
                                             c \in Configs}])>>)
@@ -236,6 +259,7 @@ Init == /\ pats \in Configs
         /\ known = {}
         /\ opened = {}
         /\ last = [act |-> "init", loc |-> NoLoc]
+        /\ owner = "configured"
         /\ (pats = {} => EmitTables)
 
 AddStep    == Mode # "gen" /\ \E l \in Locs : Add(l)
@@ -243,19 +267,25 @@ SetURLStep == Mode # "gen" /\ \E l \in Locs : SetURL(l)
 InjectStep == Mode # "gen" /\ \E l \in Locs : Inject(l)
 RefreshStep == Mode # "gen" /\ Refresh
 RemoveStep == Mode # "gen" /\ \E l \in known : Remove(l)
+OwnerStep  == Mode # "gen" /\ OwnerMutatesItsCopy
 SweepStep  == Mode = "gen" /\ last.act = "init" /\ \E l \in Locs : Sweep(l)
 
-Next == AddStep \/ SetURLStep \/ InjectStep \/ RefreshStep \/ RemoveStep \/ SweepStep
+Next == AddStep \/ SetURLStep \/ InjectStep \/ RefreshStep \/ RemoveStep \/ OwnerStep \/ SweepStep
 
 Spec == Init /\ [][Next]_vars
 
 \* What the real server's behaviour may depend on, as far as the spec goes.
-WalkView == <<pats, known>>
+WalkView == <<pats, known, owner>>
 
 \* --------------------------------------------- properties of the statement
 \* Whatever the history, a step may open only clean absolute paths matching
 \* a configured pattern, and nothing at all without patterns.
 SafeInv == Safe(PatsOf(pats), opened)
+
+\* The patterns in force are the ones the server was started with: no step,
+\* and in particular nothing the owner does to its own copies afterwards,
+\* changes them.
+PatternsFixedAtStart == [][pats' = pats]_vars
 
 \* What an entry step may open is the one file the location names -- never
 \* something else that happens to match.
@@ -295,4 +325,7 @@ ASSUME MatchPath(Globs[6], <<"R", "o", "a.txt">>) /\ ~MatchPath(Globs[6], <<"R",
 ASSUME \A f \in Files \cup Dirs : ~MatchPath(Globs[7], f) /\ ~MatchPath(Globs[8], f)
 ASSUME ~MatchPath(Globs[2], <<"R", "S", "a.txt">>) /\ ~MatchPath(Globs[4], <<"R", "S", "a.txt">>)
 ASSUME \A f \in Files \cup Dirs : IsCleanAbs(f)
+\* Scribbling matters: the owner's new patterns match files that, e.g., the
+\* exact-path configuration {1} forbids.
+ASSUME MatchPath(ScribbleGlobs[1], <<"R", "o", "a.txt">>) /\ MatchPath(ScribbleGlobs[2], <<"R", "a.txt">>)
 =============================================================================
